@@ -4,9 +4,16 @@
      (1 size (num den) answers)             -> create_random_holdout
      (2 ((idxs observed) ...) (num den) answers) -> create_plate_balanced_holdout_set_among_masked_plates
      (3 n_thetas max_combos answers)        -> DBAL triple sub-sampling
+     (4 plates size t answers)              -> FixedSizeSmoother / OptimalSizeSmoother._smooth_plates with plate size t;
+                                               plates = the plates' 0/1 selection vectors; out = the final selection vector
+     (5 names answers)                      -> PlatePermutationPlateGenerator._generate_plates: names = the (integer-coded) plate
+                                               names of the rows to permute; out = their new names
+     (6 groups size max_plate_size answers) -> SampleSegregatingPermutationPlateGenerator._generate_plates: groups = the row lists
+                                               of the samples in unique_sample_ids order; out = (0 labels) | (1 tag), the plate
+                                               number of every row
    answers : list of list of integers (one per recorded generator call).
    Result: (0 (out requests contract_ok)) | (1 tag); requests encoded as
-     (0) | (1 pool k replace) | (2 n k replace);
+     (0) | (1 pool k replace) | (2 n k replace) | (3 pool);
    contract_ok = 1 iff there are exactly as many answers as requests and each answer satisfies
    the numpy contract of its request. *)
 From Coq Require Import ZArith List QArith.
@@ -19,6 +26,7 @@ Definition of_req (r : req) : sexp :=
   | RRandom => SL [SZ 0]
   | RChoice pool k rep => SL [SZ 1; of_Zs pool; SZ k; of_bool rep]
   | RChoiceN n k rep => SL [SZ 2; SZ n; SZ k; of_bool rep]
+  | RPermutation pool => SL [SZ 3; of_Zs pool]
   end.
 
 Definition of_run {Out} (enc : Out -> sexp) (answers : list ans) (r : result (Out * list req)) : sexp :=
@@ -52,6 +60,23 @@ Definition run_c18 (orc : oracle) (s : sexp) : sexp :=
       | Some n, Some m, Some answers =>
           of_run (of_result of_Zs) answers (run (dbal_subsample_prog n m) answers)
       | _, _, _ => bad_input
+      end
+  | SL [SZ 4; plates; size; t; answers] =>
+      match as_listof (as_listof as_bool) plates, as_Z size, as_Z t, as_answers answers with
+      | Some plates, Some size, Some t, Some answers =>
+          of_run (of_list of_bool) answers (run (size_smoother_prog plates size t) answers)
+      | _, _, _, _ => bad_input
+      end
+  | SL [SZ 5; names; answers] =>
+      match as_Zs names, as_answers answers with
+      | Some names, Some answers => of_run of_Zs answers (run (plate_permutation_prog names) answers)
+      | _, _ => bad_input
+      end
+  | SL [SZ 6; groups; size; mx; answers] =>
+      match as_listof as_Zs groups, as_Z size, as_Z mx, as_answers answers with
+      | Some groups, Some size, Some mx, Some answers =>
+          of_run (of_result of_Zs) answers (run (sample_seg_prog groups size mx) answers)
+      | _, _, _, _ => bad_input
       end
   | _ => bad_input
   end.
